@@ -189,7 +189,29 @@ def run(ctx):
             res.violation("TABLE", FN, f"kind={KINDS[cls]},dir={d},unknown={uh},filter=none,vertices-compare-equal",
                           f"neighbors() contributes {got!r} for a {KINDS[cls]}-kind link (queried vertex is {pos}) between two distinct vertices of a class with value equality; the statement requires {exp!r} (the opposite end)",
                           replay=replay_snippet([(cls, pos)], d, uh, "none").replace("from edgegraph.traversal import helpers", "from edgegraph.traversal import helpers\nclass Vertex(Vertex):\n    __eq__ = lambda s, o: isinstance(o, Vertex)\n    __hash__ = lambda s: 0"))
-    res.rule("TABLE", len(derived) + neq)
+    # ---- objects whose repr() / str() raise: what the call does with a link never depends on how the objects would print
+    ngr = 0
+    for pos, d, uh in itertools.product(POS, DIRS[:3], UHS):
+        exp = expected("X", pos, d, uh, "none")
+        h.reset()
+        try:
+            a, links, others = build(h, [("GrumpyTwo", pos)], vcls="GrumpyVert")
+            out = h.call(fn, a, C[d], C[uh], None)
+        except Unknown as u:
+            res.ob(False)
+            res.undecide(f"{FN} row GrumpyTwo,{pos},{d},{uh}: {u}")
+            continue
+        ngr += 1
+        got = classify(out, others[0], a)
+        ok = got == exp
+        res.ob(ok, sig=("grumpy", pos, d, uh))
+        if not ok:
+            res.violation("TABLE", FN, f"kind=X,dir={d},unknown={uh},filter=none,objects-whose-repr-raises",
+                          f"neighbors() gives {got!r} ({out!r}) for a link of another two-ended type (queried vertex is {pos}) when repr()/str() of the link and of the vertices raise; the statement requires {exp!r}",
+                          replay="from edgegraph.structure import Vertex, TwoEndedLink\nfrom edgegraph.traversal import helpers\nclass GV(Vertex):\n    def __repr__(self): raise RuntimeError('not ready')\n    __str__ = __repr__\n"
+                                 "class GT(TwoEndedLink):\n    def __repr__(self): raise RuntimeError('not ready')\n    __str__ = __repr__\na, b = GV(), GV()\nl = GT(a, b)\n"
+                                 f"print(helpers.neighbors(a, helpers.DIR_SENS_{d}, helpers.LNK_UNKNOWN_{uh}))")
+    res.rule("TABLE", len(derived) + neq + ngr)
     # ---- duality (derived table maps onto itself under FORWARD<->BACKWARD, v1<->v2)
     swap = {"v1": "v2", "v2": "v1", "both": "both"}
     nd = 0
